@@ -30,7 +30,13 @@ site: http://bugseng.com/products/ppl/ . */
 namespace PPL = Parma_Polyhedra_Library;
 
 PPL::C_Polyhedron::C_Polyhedron(const NNC_Polyhedron& y, Complexity_Class)
-  : Polyhedron(NECESSARILY_CLOSED, y.space_dimension(), UNIVERSE) {
+  : Polyhedron(NECESSARILY_CLOSED, y.space_dimension(),
+               y.is_empty() ? EMPTY : UNIVERSE) {
+  // The topological closure of the empty polyhedron is empty: this cannot
+  // be obtained by closing the strict inequalities one by one.
+  if (y.is_empty()) {
+    return;
+  }
   const Constraint_System& cs = y.constraints();
   for (Constraint_System::const_iterator i = cs.begin(),
          cs_end = cs.end(); i != cs_end; ++i) {
